@@ -25,7 +25,8 @@ impl CountMinSketch {
             return Err(TinyLFUError::InvalidCountMinWidth(ctrs));
         }
 
-        let ctrs = next_power_of_2(ctrs);
+        // at least two counters, so that a row (two 4-bit counters per byte) is never empty
+        let ctrs = next_power_of_2(ctrs).max(2);
         let hctrs = ctrs / 2;
 
         let this = Self {
